@@ -213,7 +213,11 @@ pub fn build(quick: bool) -> PropRun {
     scs.push(ew_states(false));
     if !quick { scs.push(ew_states(true)); }
     // (d) the fault explorations of other properties, with the panic / work-budget oracle only
-    let take = |p: PropRun, n: usize, out: &mut Vec<Scenario>| { let total = p.scenarios.len(); let step = (total / n.max(1)).max(1); for (i, s) in p.scenarios.into_iter().enumerate() { if i % step == 0 { let inner = s.run; out.push(Scenario { name: format!("C03.from.{}", s.name), d: s.d, run: Box::new(move |ch: &mut Chooser| { let mut r = inner(ch); r.violations.clear(); r }) }); } } };
+    // every n-th scenario, and every n-th of those whose sequence numbers wrap (frame bases at 2^32, packet bases at 2^20): comparisons of raw ids differ from ring distances only there
+    let take = |p: PropRun, n: usize, out: &mut Vec<Scenario>| { let total = p.scenarios.len(); let step = (total / n.max(1)).max(1);
+        let wrapping: Vec<usize> = p.scenarios.iter().enumerate().filter(|(_, s)| s.name.contains("fbffffff")).map(|(i, _)| i).collect(); let wstep = (wrapping.len() / n.max(1)).max(1);
+        let wpick: std::collections::HashSet<usize> = wrapping.iter().enumerate().filter(|(k, _)| k % wstep == 0).map(|(_, i)| *i).collect();
+        for (i, s) in p.scenarios.into_iter().enumerate() { if i % step == 0 || wpick.contains(&i) { let inner = s.run; out.push(Scenario { name: format!("C03.from.{}", s.name), d: s.d, run: Box::new(move |ch: &mut Chooser| { let mut r = inner(ch); r.violations.clear(); r }) }); } } };
     let budget = if quick { 12 } else { 60 };
     for id in ["C01", "C02", "C05", "C11", "C13", "C08", "C09", "C07", "C10", "C17"] { if let Some(p) = crate::props::build(id, if quick { "quick" } else { "thorough" }) { take(p, budget, &mut scs); } }
     // (c)
